@@ -465,6 +465,28 @@ def run_c17(pid, tier):
             miss = [p0 for p0 in need if not any(p0 == a or p0.startswith(a + "/") for a in rel)]
             if miss:
                 oracle_fail.append((r["key"], "file %s was read by the sass compiler (it is part of the css) but no cargo:rerun-if-changed line covers it in run %d (announced: %s)" % (miss[0], ri + 1, rel), None)); break
+    # a build script that tolerates a missing optional input (the failing call's result is ignored) and goes on with the same StaticFiles:
+    # what the later calls look at must still be announced.  Implementation against the oracle only (the model's scripts stop at a failure).
+    iscen = []; ineed = []
+    tree = [('W', 'st/a.css', 'a{}'), ('W', 'st/sub/b.js', 'b'), ('W', 'st/sub/deep/c.png', 'c'), ('W', 't/x.rs.html', '@()\nx')]
+    for prog, need in [([('s',), ('T', 'optional', 'opt'), ('t', 'st', 'pub')], ["st", "st/a.css", "st/sub", "st/sub/b.js", "st/sub/deep", "st/sub/deep/c.png"]),
+                       ([('s',), ('T', 'st/a.css', 'opt'), ('T', 'nope/x', 'y'), ('t', 'st/sub', '')], ["st/sub", "st/sub/b.js", "st/sub/deep", "st/sub/deep/c.png"]),
+                       ([('s',), ('G', 'optional'), ('g', 'st')], ["st", "st/a.css"]),
+                       ([('s',), ('F', 'st/missing.css'), ('f', 'st/a.css'), ('A', 'st/none.js', 'n.js'), ('a', 'st/sub/b.js', 'b.js')], ["st/a.css", "st/sub/b.js"]),
+                       ([('c', 't'), ('s',), ('G', 'st/sub/deep/c.png'), ('t', 'st', ''), ('g', 'st/sub')], ["t", "t/x.rs.html", "st", "st/sub", "st/sub/b.js"])]:
+        iscen.append(tree + [('R', prog), ('R', prog)]); ineed.append(need)
+    for need, sc, r in zip(ineed, iscen, run_scenarios_env(iscen, dict(os.environ), cwd="/")):
+        key = scenario_line(sc)
+        for ri, run in enumerate(r["runs"][:2]):
+            chk.count(key.encode() + b"#i%d" % ri, True)
+            base = r["base"].decode()
+            ann = [l[len("cargo:rerun-if-changed="):] for l in run["out"].decode("utf8", "replace").split("\n") if l.startswith("cargo:rerun-if-changed=")]
+            rel = [os.path.normpath(a[len(base) + 1:]) if a.startswith(base + "/") else a for a in ann]
+            if run["status"] != "ok":
+                oracle_fail.append((key, "a build script that ignores the failure of a call on a missing optional input did not complete: %s" % run["status"], None)); break
+            miss = [p0 for p0 in need if not any(p0 == a or p0.startswith(a + "/") for a in rel)]
+            if miss:
+                oracle_fail.append((key, "%s influenced the output of a call made after a tolerated failure on the same StaticFiles, but no cargo:rerun-if-changed line covers it in run %d (announced: %s)" % (miss[0], ri + 1, rel), None)); break
     for s in scen[:1]: chk.sample(dict(steps=[str(x)[:90] for x in s[-6:]]))
     chk.notes["influencing_inputs_checked"] = kinds
     chk.cov["rule"] = ("random template trees plus nested static directories and build-script programs over compile_templates, add_file, add_files, add_file_as, add_files_as (with sub-directories), add_sass_file; "
@@ -497,12 +519,14 @@ def run_c18(pid, tier):
         sc = [('W', 't/' + name, src)] + [('W', 't/' + f, c) for f, c in reversed(sib)] + [('M', 't/zz')] + [('R', [('c', 't')])]
         sd = [('W', 'some/where/else/q/' + name, src), ('W', 'some/where/else/other.rs.html', '@()x'), ('R', [('c', 'some/where/else')]), ('R', [('c', 'some/where/else')])]
         # statics: same set of names in different orders
-        names = rng.sample(["a.css", "b.js", "c-d.png", "e.f.txt", "g_h.woff", "0.ico", "site.css", "site2.css", "siteA.css", "site_.css", "site-x.css"], rng.randint(2, 6))
+        names = rng.sample(["a.css", "b.js", "c-d.png", "e.f.txt", "g_h.woff", "0.ico", "site.css", "site2.css", "siteA.css", "site_.css", "site-x.css", "img-small.png", "img2.png", "site-map.xml", "siteMap.xml"], rng.randint(2, 7))
         if rng.random() < 0.4:
             # published names that agree on their first 40 / 70 bytes
             lp = "the-long-common-prefix-of-several-file-names" + ("-and-then-some-more-of-the-same" if rng.random() < 0.5 else "")
             extra = [lp + "-responsive.min.css", lp + "-responsive.css", lp + ".js"]; rng.shuffle(extra); names += extra[:rng.randint(2, 3)]
-        p1 = [('s',)] + [('d', x, x.encode()) for x in names]
+        # one order ascending in the derived identifiers (which sort differently from the published names where '-', '.' meet digits and capitals), one descending in the names
+        ident = lambda x: "".join(ch if ch.isalnum() else "_" for ch in x)
+        p1 = [('s',)] + [('d', x, x.encode()) for x in (sorted(names, key=ident) if rng.random() < 0.6 else names)]
         p2 = [('s',)] + [('d', x, x.encode()) for x in sorted(names, reverse=True)]
         if rng.random() < 0.5 and len(names) >= 2:
             # the same set of published names from source paths whose order differs from the order of the names
@@ -609,9 +633,11 @@ def run_scenarios_env(scenarios, env, cwd):
     p = subprocess.run([HARNESS, "capture", "build"], input=("\n".join(lines) + "\n").encode(), capture_output=True, env=env, cwd=cwd)
     out = []
     for full, l in zip(plans, [x for x in p.stdout.decode("utf8", "replace").split("\n") if x]):
-        fields = parse_ordered(l); runs = []
+        fields = parse_ordered(l); runs = []; buf = b""; base = b""
         for k, v in fields:
-            if k == "run": runs.append(dict(kind="R", status=v, after=None))
+            if k == "base": base = unhexs(v)
+            elif k == "out": buf += unhexs(v)
+            elif k == "run": runs.append(dict(kind="R", status=v, after=None, out=buf)); buf = b""
             elif k == "snap" and runs: runs[-1]["after"] = parse_snap(v)
-        out.append(dict(runs=runs))
+        out.append(dict(runs=runs, base=base))
     return out
